@@ -53,6 +53,7 @@ __CPROVER_ensures(x == NA_X ==> __CPROVER_return_value == NA_Y)
 __CPROVER_assigns()
 ;
 #define TREC(x) m_receivers[(x) * REC_W]
+#define BITS(x) (*(const uint64_t *) &(x))       /* the bit pattern of a double cell */
 """
 
 TILT_DEFS = r"""
@@ -135,7 +136,7 @@ __CPROVER_ensures(%(ABOVE)s)
 /* C02 never_below_input */
 __CPROVER_ensures(elevation[G] >= __CPROVER_old(elevation[G]))
 /* C02 terminals_bit_identical: a node that is its own receiver is never written */
-__CPROVER_ensures(TREC(G) == G ==> elevation[G] == __CPROVER_old(elevation[G]))
+__CPROVER_ensures(TREC(G) == G ==> BITS(elevation[G]) == __CPROVER_old(BITS(elevation[G])))
 /* C02 one_increment_per_step: a written value is nextafter(final elevation of the receiver) */
 __CPROVER_ensures(elevation[G] == __CPROVER_old(elevation[G]) || (elevation[TREC(G)] == NA_X ==> elevation[G] == NA_Y))
 /* C02: only nodes that were not above their receiver are raised */
@@ -147,7 +148,7 @@ __CPROVER_loop_invariant(dfs_k <= gsize)
 __CPROVER_loop_invariant(!isnan(elevation[G]))
 __CPROVER_loop_invariant(dfs_k <= PG ==> elevation[G] == __CPROVER_loop_entry(elevation[G]))
 __CPROVER_loop_invariant(elevation[G] >= __CPROVER_loop_entry(elevation[G]))
-__CPROVER_loop_invariant(TREC(G) == G ==> elevation[G] == __CPROVER_loop_entry(elevation[G]))
+__CPROVER_loop_invariant(TREC(G) == G ==> BITS(elevation[G]) == __CPROVER_loop_entry(BITS(elevation[G])))
 __CPROVER_loop_invariant(dfs_k > PG ==> %(ABOVE)s)
 __CPROVER_loop_invariant(dfs_k > PG ==> (elevation[G] == __CPROVER_loop_entry(elevation[G]) || (elevation[TREC(G)] == NA_X ==> elevation[G] == NA_Y)))
 __CPROVER_loop_invariant(dfs_k > PG ==> (elevation[G] == __CPROVER_loop_entry(elevation[G]) || __CPROVER_loop_entry(elevation[G]) <= elevation[TREC(G)]))
@@ -172,7 +173,7 @@ def tilt_groups():
     return [Group(
         name="sweeps.tilt", units=[tilt], harness=tilt_harness(), entry="h_tilt", enforce="tilt",
         replace=["sw_nextafter_up"], loop_contracts=True, defines=["REC_W=1", "REC_BYTES=8"],
-        backend="sat", timeout=600, min_obligations=40, object_bits=8,
+        backend="sat", timeout=600, min_obligations=700, object_bits=8,
         clause="spanning-tree resolver tilt loop, any number of nodes, any order satisfying the order contract: afterwards every node is its own "
                "receiver or strictly above its receiver (or the receiver is at +inf); no elevation decreases; own-receiver nodes are bit-identical; "
                "a changed value is nextafter(+inf) of the receiver's final elevation and the node was not above its receiver before")]
@@ -289,7 +290,7 @@ void h_compute_donors(void)
         name="sweeps.donors.w%d" % don_w, units=[make_donors(don_w)], harness=h, entry="h_compute_donors",
         enforce="compute_donors", replace=["sw_fill_sz"], loop_contracts=True,
         defines=["REC_W=1", "REC_BYTES=8", "DON_W=%d" % don_w, "DON_BYTES=%d" % (8 * don_w)],
-        backend="sat", timeout=(600 if tier == "quick" else 1800), min_obligations=40, tier=tier, object_bits=8,
+        backend="sat", timeout=(600 if tier == "quick" else 1800), min_obligations=500, tier=tier, object_bits=8,
         clause="compute_donors, any number of nodes, arbitrary previous table contents: every stored donor d of row r is a node != r with "
                "receiver r (sound), a row holds no node twice (slots strictly increasing), every node != r with receiver r is in row r "
                "(complete); row width %d" % don_w)]
@@ -456,7 +457,7 @@ void h_compute_basins(void)
                   "unmasked outlet labelled with its slot; the authors' assert"}
     return [Group(
         name="sweeps.basins.%s" % part, units=[is_masked, make_basins(part)], harness=h, entry="h_compute_basins", enforce="compute_basins",
-        loop_contracts=True, defines=["REC_W=1", "REC_BYTES=8"], backend="sat", timeout=600, min_obligations=60, object_bits=8,
+        loop_contracts=True, defines=["REC_W=1", "REC_BYTES=8"], backend="sat", timeout=600, min_obligations=(700 if part == "propagation" else 1200), object_bits=8,
         clause="compute_basins, any number of nodes, any mask, any bottom-up order satisfying the order contract, arbitrary previous contents: " +
                clause[part]) for part in ("propagation", "labels")]
 
@@ -546,7 +547,7 @@ void h_pits(void)
 """ % (PITS_ARGS, CANARY)
     return [Group(
         name="sweeps.pits", units=[is_base_level, pits], harness=h, entry="h_pits", enforce="pits",
-        loop_contracts=True, backend="sat", timeout=600, min_obligations=40, object_bits=8,
+        loop_contracts=True, backend="sat", timeout=600, min_obligations=600, object_bits=8,
         clause="pits(), any outlet list, any base-level set, arbitrary previous contents: the j-th outlet entry that is not a base level is pit "
                "number j (filter, order preserved), pits.size() = number of such entries, every pit is a non-base-level member of the outlet list")]
 
@@ -588,8 +589,9 @@ _Bool SW_OVF;                                     /* ghost flag: an infinite acc
 """
 
 
-def acc_op_contracts(rec_w):
-    keyed = conj("(a == GA && w == GW[%k]) ==> __CPROVER_return_value == GP[%k]", rec_w)
+def acc_op_contracts(rec_w, mode):
+    # the non-negativity clause needs no determinism of acc*weight (only its sign); the keyed clause is left out there
+    keyed = conj("(a == GA && w == GW[%k]) ==> __CPROVER_return_value == GP[%k]", rec_w) if mode == "eq" else "1"
     addkey = conj("(x == AX[%k] && y == AY[%k]) ==> __CPROVER_return_value == AR[%k]", rec_w + 1)
     return r"""
 double sw_mul_local(double a, double s)
@@ -611,9 +613,11 @@ __CPROVER_ensures(%s)
 """ % (keyed, addkey)
 
 
-def acc_ghost_consistent(rec_w):
+def acc_ghost_consistent(rec_w, mode):
     """the ghost points belong to functions: equal operands, equal results; and they satisfy the sign facts"""
     parts = ["((G_AREA >= 0 && G_SRC >= 0 && G_AREA < INFINITY && G_SRC < INFINITY) ==> GLOC >= 0)"]
+    if mode != "eq":
+        return parts[0]
     for k in range(rec_w):
         parts.append("((GA >= 0 && GA < INFINITY && GW[%d] >= 0 && GW[%d] < INFINITY) ==> GP[%d] >= 0)" % (k, k, k))
         parts.append("((!(GA < 0) && GW[%d] >= 0) ==> !(GP[%d] < 0))" % (k, k))
@@ -724,10 +728,13 @@ def acc_chain(rec_w, node, start):
     Returns (hypothesis "the ghost addition points are the operands met along the chain", final value)."""
     x = start
     hyp = []
+    xs = [x]
     for r in range(rec_w):
         pt = acc_points_at(node, r)
         hyp.append("(%s ==> (%s == AX[%d] && GP[%d] == AY[%d]))" % (pt, x, r, r, r))
         x = "(%s ? AR[%d] : %s)" % (pt, r, x)
+        xs.append(x)
+    acc_chain.values = xs
     return "(" + " && ".join(hyp) + ")", x
 
 
@@ -752,9 +759,40 @@ def acc_step_clauses(rec_w, mode, vk, old, new, newv):
     return own, other, untouched
 
 
-def make_acc_step(rec_w, mode):
+def acc_inner_loop_contract(rec_w, mode):
+    """loop contract of the receiver-slot loop (used instead of complete unwinding for wide tables): after the slots < r the value of acc[G]
+    is the r-th value of the chain of the step equation; acc of the node of the turn does not change; finality; non-negativity"""
+    entry = "__CPROVER_loop_entry(acc[G])"
+    hyp, _ = acc_chain(rec_w, "V_K", entry)
+    xs = acc_chain.values
+    xsel = xs[rec_w]
+    for k in reversed(range(rec_w)):
+        xsel = "(r == %d ? %s : %s)" % (k, xs[k], xsel)
+    before = disj("%k < r && %k < RCNT(V_K) && REC(V_K, %k) == G", rec_w)
+    inv = r"""
+__CPROVER_assigns(r, __CPROVER_object_whole(acc), SW_OVF)
+__CPROVER_loop_invariant(r <= RCNT(V_K))
+__CPROVER_loop_invariant(SAME_D(acc[V_K], __CPROVER_loop_entry(acc[V_K])))
+__CPROVER_loop_invariant(TURN_POS(dfs_k) < POS[G] ==> SAME_D(acc[G], %(ENTRY)s))
+""" % dict(ENTRY=entry)
+    if mode == "eq":
+        inv += r"""
+__CPROVER_loop_invariant(TURN_POS(dfs_k) < POS[G2] ==> SAME_D(acc[G2], __CPROVER_loop_entry(acc[G2])))
+__CPROVER_loop_invariant((V_K != G && %(KEY)s && %(HYP)s) ==> SAME_D(acc[G], %(XSEL)s))
+__CPROVER_loop_invariant((V_K != G && !%(BEFORE)s) ==> SAME_D(acc[G], %(ENTRY)s))
+""" % dict(KEY=acc_key(rec_w, "V_K", "acc[V_K]"), HYP=hyp, XSEL=xsel, BEFORE=before, ENTRY=entry)
+    else:
+        inv += r"""
+__CPROVER_loop_invariant(%(JG)s)
+__CPROVER_loop_invariant(__CPROVER_loop_entry(SW_OVF) ==> SW_OVF)
+""" % dict(JG=IH_NONNEG % ("G", "G"))
+    inv += "__CPROVER_decreases(RCNT(V_K) - r)\n"
+    return inv
+
+
+def make_acc_step(rec_w, mode, inner="unwind"):
     own, other, untouched = acc_step_clauses(rec_w, mode, "V_K", "__CPROVER_old(acc[G])", "acc[G]", "acc[V_K]")
-    d = dict(FRESH=ACC_FRESH, CONS=acc_ghost_consistent(rec_w), OWN=own, OTHER=other, UNTOUCHED=untouched,
+    d = dict(FRESH=ACC_FRESH, CONS=acc_ghost_consistent(rec_w, mode), OWN=own, OTHER=other, UNTOUCHED=untouched,
              JG=IH_NONNEG % ("G", "G"), JV=IH_NONNEG % ("V_K", "V_K"))
     contract = r"""
 %(FRESH)s
@@ -773,10 +811,10 @@ __CPROVER_requires(%(JV)s)
 __CPROVER_assigns(__CPROVER_object_whole(acc), SW_OVF)
 /* C03 sweep_finality: a node whose turn is over (its position is above the one processed now) is not written */
 __CPROVER_ensures(TURN_POS(dfs_k) < POS[G] ==> SAME_D(acc[G], __CPROVER_old(acc[G])))
-__CPROVER_ensures(TURN_POS(dfs_k) < POS[G2] ==> SAME_D(acc[G2], __CPROVER_old(acc[G2])))
 """ % d
     if mode == "eq":
         contract += r"""
+__CPROVER_ensures(TURN_POS(dfs_k) < POS[G2] ==> SAME_D(acc[G2], __CPROVER_old(acc[G2])))
 /* C03 step_equation, own turn: the local contribution area * src is added, once; self-receiver slots add nothing */
 __CPROVER_ensures(%(OWN)s)
 /* C03 step_equation, turn of another node v: for each receiver slot r of v that points to G, in slot order, acc(v) * weight(v, r) is
@@ -795,13 +833,20 @@ __CPROVER_ensures(__CPROVER_old(SW_OVF) ==> SW_OVF)
     return Unit(
         name="accumulate_step", file=IMPL_H, anchor=ACC_ANCHOR, inner=ACC_LOOP_HEAD + r"\s*\{",
         sig="void accumulate_step(size_t dfs_k, %s)" % ACC_PARAMS,
-        pre=ACC_PRED + acc_op_contracts(rec_w) + acc_accessors(mode), defs=acc_defs(mode),
+        pre=ACC_PRED + acc_op_contracts(rec_w, mode) + acc_accessors(mode), defs=acc_defs(mode),
         rules=[
             # reverse iterator over the order: turn dfs_k reads position size-1-dfs_k
             R(r"const auto (\w+) = \*\w+;", r"const size_t \1 = SW_DFS(TURN_POS(dfs_k));", 1),
         ] + ACC_OP_RULES + ACC_VOCAB,
         contract=contract,
+        loops=({0: acc_inner_loop_contract(rec_w, mode)} if inner == "contract" else None),
     )
+
+
+def acc_inner(rec_w):
+    """receiver-slot loop: completely unwound up to width 4, closed by its own loop contract for wider tables (the unwound width-8 step did
+    not finish in 30 min)"""
+    return "unwind" if rec_w <= 4 else "contract"
 
 
 def acc_ghost_init(rec_w):
@@ -837,11 +882,13 @@ def acc_step_groups(rec_w, tier="quick"):
     gs = []
     for mode in ("eq", "nonneg"):
         gs.append(Group(
-            name="sweeps.accumulate.step.%s.w%d" % (mode, rec_w), units=[make_acc_step(rec_w, mode)],
+            name="sweeps.accumulate.step.%s.w%d" % (mode, rec_w), units=[make_acc_step(rec_w, mode, acc_inner(rec_w))],
             harness=acc_step_harness(rec_w), entry="h_accumulate_step", enforce="accumulate_step",
             replace=["sw_mul_local", "sw_mul_w"] + (["sw_add"] if mode == "eq" else []),
-            unwindset={("accumulate_step", 0): rec_w + 1}, defines=acc_defines(rec_w),
-            backend="sat", timeout=(600 if tier == "quick" else 1800), min_obligations=30, tier=tier, object_bits=acc_object_bits(rec_w),
+            unwindset=({("accumulate_step", 0): rec_w + 1} if acc_inner(rec_w) == "unwind" else None),
+            loop_contracts=(acc_inner(rec_w) == "contract"), defines=acc_defines(rec_w),
+            backend="sat", timeout=(600 if tier == "quick" else 1800), min_obligations=(500 if mode == "eq" else 300), tier=tier,
+            object_bits=acc_object_bits(rec_w),
             clause={"eq": "one turn of the accumulation sweep (node v), + and * abstracted as deterministic functions of their operands: "
                           "finality (a node whose turn is over is not written), own contribution area*src added once, each receiver slot r of v "
                           "pointing to a node != v adds acc(v)*weight(v,r) to it in slot order, no other node changes",
@@ -875,7 +922,7 @@ def make_acc_outer(rec_w, mode):
         turn_inst += "FSL_PRE(%s); /* IH of `no accumulated value is negative` */ " % (IH_NONNEG % ("V_AT(dfs_k)", "V_AT(dfs_k)"))
     body = ("{ FSL_GHOST(if (dfs_k == GT) SN_PRE = acc[G];) " + turn_inst +
             "accumulate_step(dfs_k, %s); FSL_GHOST(if (dfs_k == GT) SN_POST = acc[G];) }" % ACC_ARGS)
-    d = dict(FRESH=ACC_FRESH, CONS=acc_ghost_consistent(rec_w), OWN=own, OTHER=other, UNTOUCHED=untouched,
+    d = dict(FRESH=ACC_FRESH, CONS=acc_ghost_consistent(rec_w, mode), OWN=own, OTHER=other, UNTOUCHED=untouched,
              JG=IH_NONNEG % ("G", "G"),
              LOWER="((area[G] == G_AREA && src[G] == G_SRC) ==> (!(acc[G] < GLOC) && (!SW_OVF ==> acc[G] >= GLOC)))")
     contract = r"""
@@ -953,10 +1000,10 @@ def acc_outer_groups(rec_w, tier="quick"):
     gs = []
     for mode in ("eq", "nonneg"):
         gs.append(Group(
-            name="sweeps.accumulate.loop.%s.w%d" % (mode, rec_w), units=[make_acc_step(rec_w, mode), make_acc_outer(rec_w, mode)],
+            name="sweeps.accumulate.loop.%s.w%d" % (mode, rec_w), units=[make_acc_step(rec_w, mode, acc_inner(rec_w)), make_acc_outer(rec_w, mode)],
             harness=acc_outer_harness(rec_w), entry="h_accumulate", enforce="accumulate",
             replace=["accumulate_step", "sw_fill_d"], loop_contracts=True, defines=acc_defines(rec_w),
-            backend="sat", timeout=(600 if tier == "quick" else 1800), min_obligations=30, tier=tier, object_bits=acc_object_bits(rec_w),
+            backend="sat", timeout=(900 if tier == "quick" else 1800), min_obligations=600, tier=tier, object_bits=acc_object_bits(rec_w),
             clause={"eq": "whole accumulation sweep (any number of nodes, any order satisfying the order contract, arbitrary previous contents of acc): "
                           "acc starts from 0; for an arbitrary node G and an arbitrary turn (node v): v == G adds area*src once, v != G adds "
                           "acc_final(v)*weight(v,r) for each slot r pointing to G in slot order and nothing otherwise; the returned acc[G] is the "
@@ -990,7 +1037,7 @@ void h_fp_facts(void)
 """ % CANARY
     return [Group(
         name="sweeps.accumulate.fp_facts", units=[], harness=h, entry="h_fp_facts", enforce="sw_ieee_mul",
-        backend="sat", timeout=300, min_obligations=3, object_bits=8,
+        backend="sat", timeout=300, min_obligations=8, object_bits=8,
         clause="IEEE-754 binary64 multiplication satisfies the sign clauses assumed of the abstracted products (one product per obligation, bit-precise)")]
 
 
@@ -1055,6 +1102,10 @@ PROPS = {
             "start of the iteration before any write (FSL_PRE in front of the outlined body); base and step are proved for the arbitrary ghost node",
             "loop body outlined as accumulate_step(turn); the sweep is closed by a loop contract using only the step's contract; ghost history "
             "variables SN_INIT/SN_PRE/SN_POST (value of acc[G] at sweep start, before/after one arbitrary turn) are assigned in ghost statements only",
+            "receiver-slot loop `for r < receivers_count`: completely unwound (table widths 1, 2, 4); for width 8 it is closed by its own loop "
+            "contract (the r-th value of the step equation's chain) because the unwound width-8 step did not finish in 30 min",
+            "cbmc --object-bits is fixed per group (8, 9 for width 4, 10 for width 8): the runner's default of 12 made one of these groups go from "
+            "51 s to > 600 s",
         ],
         unmechanised=[
             "the recurrence acc(G) = area(G)*src(G) + sum over donors d of acc(d)*w(d,G) and the conservation corollary: induction over the order "
@@ -1066,8 +1117,8 @@ PROPS = {
             "equivalence of the four public overloads (xt::broadcast, forwarding, from_shape): xtensor glue",
             "bounded stand-in against the recurrence on small graphs (DESIGN C03 B): not built in this module",
         ],
-        explanation="Unbounded: init_zero, step_equation (per turn, any table width tried: 1, 2 quick; 4, 8 thorough), sweep_finality, "
-                    "nonneg_lower_bound. The recurrence itself is the unmechanised composition of these.",
+        explanation="Unbounded (any number of nodes; table widths 1, 2 in the quick tier, 4, 8 in the thorough tier): init_zero, step_equation "
+                    "(per turn), sweep_finality, nonneg_lower_bound. The recurrence itself is the unmechanised composition of these.",
     ),
     "C01": dict(
         level="other",
